@@ -41,7 +41,7 @@ ANCHORS = ['pfhedge.nn.functional:european_payoff',
 PYTEST_WORKLOAD = True  # thorough tier also runs /repo/tests with these passive monitors attached (DESIGN.md 2.7)
 DECIDING = ["payoff.european", "payoff.lookback", "payoff.american_binary", "payoff.european_binary",
             "payoff.forward_start", "payoff.realized_variance", "derivative.payoff_fn", "clauses.order", "relations"]
-REQUIRED_BRANCHES = ["tie_with_strike", "call", "put", "T=1", "T=2"]
+REQUIRED_BRANCHES = ["tie_with_unrepresentable_strike", "tie_with_strike", "call", "put", "T=1", "T=2"]
 
 _CTX = None
 MAXR = 12
@@ -363,6 +363,19 @@ def drv_functional(ctx, k, rng):
     dtype = pick(rng, [F32, F64])
     x, style = gen_paths(rng, dtype)
     strike = float(pick(rng, [1.0, 0.875, 1.125, 1.1, 0.9, 1.0000001, 0.5]))
+    if rng.random() < 0.4:
+        # paths that touch the strike exactly (as far as the path dtype can hold it), also for strikes float32 cannot represent
+        x = x.clone()
+        kd = torch.tensor(strike, dtype=dtype)
+        flat = x.reshape(-1, x.shape[-1])
+        for r in range(flat.shape[0]):
+            if rng.random() < 0.5:
+                j = int(rng.integers(flat.shape[1]))
+                flat[r, j] = kd
+                if rng.random() < 0.5:  # make it the path extreme / terminal value as well
+                    flat[r] = torch.minimum(flat[r], kd) if rng.random() < 0.5 else torch.maximum(flat[r], kd)
+                    flat[r, -1] = kd if rng.random() < 0.5 else flat[r, -1]
+        ctx.branch("tie_with_unrepresentable_strike" if float(kd) != strike or strike in (1.1, 0.9) else "tie_injected")
     res = {}
     for call in (True, False):
         res["eu", call] = F.european_payoff(x, call=call, strike=strike)
